@@ -53,17 +53,20 @@ class Bottom(Exception):
 
 
 class State:
-    __slots__ = ('env', 'itv', 'le', 'vals', 'pc')
+    __slots__ = ('env', 'itv', 'le', 'vals', 'pc', 'pcv')
 
     def __init__(self, env=None, itv=None, le=None, vals=None, pc=None):
         self.pc = pc            # discriminant of the last branch taken on every path into this point
+        self.pcv = None         # ... and the value it had (int) or ('not', values)
         self.env = env if env is not None else {}
         self.itv = itv if itv is not None else {}
         self.le = le if le is not None else set()
         self.vals = vals if vals is not None else {}     # vn -> frozenset of the values it can have (small sets)
 
     def copy(self):
-        return State(dict(self.env), dict(self.itv), set(self.le), dict(self.vals), self.pc)
+        s = State(dict(self.env), dict(self.itv), set(self.le), dict(self.vals), self.pc)
+        s.pcv = self.pcv
+        return s
 
     def same(self, o):
         return self.env == o.env and self.itv == o.itv and self.le == o.le and self.vals == o.vals
@@ -397,6 +400,10 @@ class AbsInt:
             return r if op == 'Eq' else 1 - r
         return None
 
+    def round_up_ge(self, st, a, b, d):
+        """b = (a + m) & !m  with m = 2^s - 1   =>   a <= b   (hook: the alignment layer recognises masks)"""
+        return False
+
     def strip(self, st, v):
         """drop value-preserving wrap/cast nodes"""
         n = 0
@@ -451,6 +458,19 @@ class AbsInt:
         if a[0] == 'bin' and a[1] in ('BitAnd',) and not strict:
             if a[2] == b or a[3] == b:
                 return True
+            if d < 8:
+                for x in (a[2], a[3]):
+                    ix = self.itvof(st, x, d + 1)
+                    if ix is not None and ix[0] >= 0 and x[0] != 'c' and self.prove_le(st, x, b, False, d + 3):
+                        return True
+        if b[0] == 'min' and d < 8:
+            if self.prove_le(st, a, b[1], strict, d + 2) and self.prove_le(st, a, b[2], strict, d + 2):
+                return True
+        if b[0] == 'max' and d < 8:
+            if self.prove_le(st, a, b[1], strict, d + 2) or self.prove_le(st, a, b[2], strict, d + 2):
+                return True
+        if self.round_up_ge(st, a, b, d) and not strict:
+            return True
         if a[0] == 'bin' and a[1] in ('Shr', 'Div') and a[2] == b and not strict:
             return True
         if a[0] == 'min' and (a[1] == b or a[2] == b) and not strict:
@@ -1067,7 +1087,8 @@ class AbsInt:
     # ------------------------------------------------------------------ join
     def join(self, old, new, key, widen):
         res = State()
-        res.pc = old.pc if old.pc == new.pc else None
+        res.pc = old.pc if (old.pc == new.pc and old.pcv == new.pcv) else None
+        res.pcv = old.pcv if res.pc is not None else None
         phis = set()
         for cell in old.env.keys() & new.env.keys():
             a, c = old.env[cell], new.env[cell]
@@ -1184,7 +1205,15 @@ class AbsInt:
         # order facts between the phi and terms both inputs are built from
         if a[0] in ('bin', 'wrap', 'cast', 'min', 'max', 'u', 'c') and c[0] in ('bin', 'wrap', 'cast', 'min', 'max', 'u', 'c'):
             ca, cc = subterms(a, 3), subterms(c, 3)
-            for x in ca & cc:
+            cands = set(ca & cc)
+            for stx in (old, new):
+                for fct in stx.le:
+                    if fct[0] in ('le', 'lt') and len(cands) < 40:
+                        if fct[2] in (a, c, P) or fct[2] in ca or fct[2] in cc:
+                            cands.add(fct[1])
+                        if fct[1] in (a, c, P) or fct[1] in ca or fct[1] in cc:
+                            cands.add(fct[2])
+            for x in cands:
                 if x[0] == 'c' or x == P:
                     continue
                 try:
@@ -1327,6 +1356,7 @@ class AbsInt:
             for x in t['ts']:
                 s2 = st.copy()
                 s2.pc = d
+                s2.pcv = int(x['v'])
                 try:
                     self.assume_switch(s2, d, int(x['v']), None)
                 except Bottom:
@@ -1334,6 +1364,7 @@ class AbsInt:
                 outs.append((x['t'], s2))
             s2 = st.copy()
             s2.pc = d
+            s2.pcv = ('not', tuple(vals))
             try:
                 self.assume_switch(s2, d, None, vals)
                 outs.append((t['o'], s2))
